@@ -83,6 +83,7 @@ var interestingDays = []string{"2000-02-28", "2000-02-29", "2000-03-01", "2000-1
 	"2023-03-01", "2021-03-02", "2021-05-01", "2021-12-31", "2022-01-01", "2000-03-01"}
 
 func runC14(s *Sim) {
+	s.NoTick = true // the probes sit on exact instants (one nanosecond before midnight): steps must not move the clock
 	wl := s.WL
 	// time zone of the process: must not matter
 	offs := []int{0, 3600, -3600, 5*3600 + 1800, -8 * 3600, 14 * 3600, -12 * 3600, 9 * 3600, -3*3600 - 1800}
